@@ -159,10 +159,20 @@ pub fn not(vm: &mut Vm) -> Result<VCell, Error> {
 pub fn is_list(vm: &mut Vm) -> Result<VCell, Error> {
     pop_argc(vm, 1, Some(1), "list?")?;
     let mut rest = vm.heap.get(vm.stack.pop()?);
+    // `slow` advances one pair for every two of `rest`: they meet iff the list is circular
+    let mut slow = rest.clone();
+    let mut advance = false;
     loop {
         if !rest.is_pair() {
             return Ok(rest.is_nil().into());
         }
         rest = vm.heap.get(&rest.as_cdr()?);
+        if advance {
+            slow = vm.heap.get(&slow.as_cdr()?);
+            if rest.is_pair() && rest == slow {
+                return Ok(false.into());
+            }
+        }
+        advance = !advance;
     }
 }
